@@ -1,8 +1,11 @@
-"""U-LINT: src/alpha/linter.rs (C06 lint half: L1800 LoopAsFirstStatement raised by exactly the braced branches that start with `loop`)."""
+"""U-LINT: src/alpha/linter.rs, whole file.
+C06 lint half: L1800 LoopAsFirstStatement is raised by exactly the braced if/else branches that start with `loop`.
+C09 range arms: L1142 IntegerLiteralTruncation is raised by exactly the typed integer literals outside [min_i128(T), max_u128(T)]."""
 from vlib.rsparse import LostAnchor
 F = 'src/alpha/linter.rs'
 C = 'src/alpha/common.rs'
 E = 'src/alpha/error.rs'
+V = 'src/alpha/value_type.rs'
 ALIAS = 'pub use crate::alpha::error::Error as Lint;'
 
 
@@ -17,12 +20,26 @@ def specs(pre, post):
     return inject('\topen spec fn pre(self, l: Linter) -> bool { %s }\n\topen spec fn post(self, l0: Linter, l1: Linter) -> bool { %s }' % (pre, post))
 
 
+def emit_value_type(u):
+    """value_type.rs lives in its own module: its trait `Identifier` and common.rs' struct `Identifier` share a name"""
+    u.raw('pub mod value_type {\nuse vstd::prelude::*;\nuse super::*;')
+    u.emit(V, 'trait Identifier')
+    # derives dropped: Clone -> trusted identity clone (prelude/lint_vt.rs); PartialEq is never used by the linter
+    u.emit(V, 'enum ValueType', derive_drop=['Clone', 'PartialEq'])
+    u.emit(V, 'impl<I> ValueType<I> where I: Identifier', only=['min_i128', 'max_u128'])
+    u.include('prelude/lint_vt.rs')
+    u.raw('} // mod value_type')
+
+
 def emit_ast(u):
-    """the alpha AST as in units/ast_common.py, except that Comparison is the real struct (the If arm reads condition.location)"""
+    """the alpha AST as in units/ast_common.py, but with the real Comparison / Expression / Reference / ValueType"""
     u.include('prelude/lint_opaque.rs')
-    u.opaque += ['Location', 'Expression', 'Reference', 'Builtin', 'Parameter', 'Member', 'ValueType',
-                 'OperandValueType', 'DeclarationFlag', 'EnumSet<T>', 'lexer::Error']
+    u.opaque += ['Location', 'Builtin', 'Parameter', 'Member', 'OperandValueType', 'DeclarationFlag', 'EnumSet<T>', 'lexer::Error']
+    emit_value_type(u)
+    u.emit(C, 'type ValueType')
     u.emit(C, 'struct Identifier', derive_drop=['Clone'])
+    u.emit(C, 'impl value_type::Identifier for Identifier')
+    u.emit(C, 'impl PartialEq for Identifier')
     u.emit(E, 'enum Poison', derive_drop=['Clone'])
     u.emit(E, 'enum Error', derive_drop=['Clone'])
     u.emit(C, 'enum Declaration', derive_drop=['Clone'])
@@ -32,6 +49,14 @@ def emit_ast(u):
     u.emit(C, 'struct Else', derive_drop=['Clone'])
     u.emit(C, 'struct Comparison', derive_drop=['Clone'])
     u.emit(C, 'enum ComparisonOp')
+    u.emit(C, 'struct Array', derive_drop=['Clone'])
+    u.emit(C, 'struct MemberExpression', derive_drop=['Clone'])
+    u.emit(C, 'enum Expression', derive_drop=['Clone'])
+    u.emit(C, 'enum BinaryOp')
+    u.emit(C, 'enum UnaryOp')
+    u.emit(C, 'enum DesliceOffset', derive_drop=['Clone'])
+    u.emit(C, 'enum ReferenceStep', derive_drop=['Clone'])
+    u.emit(C, 'struct Reference', derive_drop=['Clone'])
 
 
 def build(u):
@@ -54,3 +79,6 @@ def build(u):
     u.emit(F, 'impl Lintable for Block', pre=specs('true', 'lint_post(l0, l1, exp_b(self, l0.is_naked_branch))'))
     u.emit(F, 'impl Lintable for Statement', pre=specs(
         'true', 'lint_post(l0, l1, exp_ctx(self, l0.is_naked_branch, l0.is_first_statement_of_branch))'))
+    u.emit(F, 'impl Lintable for Expression', pre=specs('true', 'expr_post(l0, l1) && l1.lints@ =~= l0.lints@ + trunc_e(self)'))
+    u.emit(F, 'impl Lintable for Reference', pre=specs('true', 'expr_post(l0, l1) && l1.lints@ =~= l0.lints@ + trunc_r(self)'))
+    u.emit(F, 'impl Lintable for ReferenceStep', pre=specs('true', 'expr_post(l0, l1) && l1.lints@ =~= l0.lints@ + trunc_step(self)'))
